@@ -439,6 +439,34 @@ func StandardPasses() []Pass {
 	}
 }
 
+// zonesPass: records whose instants fall into the same second (and the next one) but carry
+// different time zones, one after the other through one logger: the time written must be each
+// record's own (a rendering remembered per second must not leak from one record into the next).
+// Sequential, before the parallel passes: the clock is this package's Fake.
+func zonesPass() *passResult {
+	res := &passResult{name: "same-second-different-zones", states: map[string]bool{}}
+	w := newWorker()
+	saved := Fake
+	defer func() { Fake = saved }()
+	base := time.Date(2023, 8, 16, 0, 35, 15, 208873091, time.UTC)
+	zones := []*time.Location{time.UTC, time.FixedZone("", -8*3600), time.FixedZone("", 5*3600+45*60), time.FixedZone("", 14*3600), time.FixedZone("", -30*60), time.UTC}
+	for round := 0; round < 2 && res.fail == ""; round++ {
+		for sec := 0; sec < 2 && res.fail == ""; sec++ {
+			for _, z := range zones {
+				Fake = base.Add(time.Duration(sec) * time.Second).In(z)
+				r := &Rec{Level: 1, Msg: "zone"}
+				res.evals++
+				if m := w.run(r); m != "" {
+					res.fail = m + fmt.Sprintf(" [record time %v; the records before it in this pass carry other zones in the same second]", Fake)
+					res.failRec = r.String()
+					break
+				}
+			}
+		}
+	}
+	return res
+}
+
 // Main runs the passes against handler kind (0 nano, 1 text, 2 json) and writes the evidence.
 func Main(id string, kind int, j Judge, passes []Pass, rule string, samples []any, assumptions []string) {
 	flag.Parse()
@@ -446,6 +474,7 @@ func Main(id string, kind int, j Judge, passes []Pass, rule string, samples []an
 	vtime.SetFake(&Fake)
 	judge, handlerKind = j, kind
 	var results []*passResult
+	results = append(results, zonesPass())
 	for _, p := range passes {
 		results = append(results, runPass(p.Name, p.Gen, p.TrackStates))
 	}
